@@ -56,6 +56,8 @@ def check(ctx):
     # a pair's channel c is the record analysed alone: layout routing of the two-channel input (2xN, Nx2, 2x2, list)
     from ..inputs import check_record
     check_record(ctx, rule_s=None, rule_r="R6-channel-routing", rule_c="R6-channels-treated-alike")
+    from ..effects import check_scratch_reuse
+    check_scratch_reuse(ctx, rule="R7-channel-buffers-not-clobbered")
     table_purity(ctx, cells=CROSS, T=T)
     ctx.trust("E4 partial evaluation of __getattr__", "E5 kernel summaries (L1, L2)", "L3, L8")
     ctx.assume("exact arithmetic; generic branch (XX, YY non-zero)")
